@@ -292,6 +292,24 @@ def run(prop, tier, seed):
     R.assumptions = list(ASSUME)
     if prop in ("C16", "C03", "C13"):
         run_process_level(prop, tier, seed, R)
+        if prop == "C16":
+            # the go parser as a whole (GoParse.tla): a parser failure on a malformed go line is a C16 matter,
+            # a different (depth, limit) than the transcription is SPEC-DRIFT only
+            import goparse
+            exe = vlib.build_harness()
+            work = vlib.workdir("goparse")
+            try:
+                cov, panics = goparse.run(R, exe, work, seed, 600 if tier == "quick" else 20000)
+                R.coverage["go_parser"] = cov
+                for rj in panics:
+                    e = rj["event"]
+                    R.violation("C16:go_parser_survives:%s" % e.get("text"),
+                                "C16 [go parser, hook level] the line '%s' makes the command handler fail (panic) instead of being parsed or ignored" % e.get("text"),
+                                {"kind": "script", "level": "process", "script": [{"k": "C", "kind": "unknown", "text": e.get("text")},
+                                                                                     {"k": "C", "kind": "isready", "text": "isready"},
+                                                                                     {"k": "C", "kind": "quit", "text": "quit"}]})
+            finally:
+                shutil.rmtree(work, ignore_errors=True)
     elif prop == "C04":
         run_hook_level(prop, tier, seed, R)
         run_process_level(prop, tier, seed, R)
